@@ -250,7 +250,99 @@ func lrConvSites(repo string) ([]convSite, error) {
 	return res, nil
 }
 
+// mmDollarLen: the `mmDollar = mmS[mmpt-K : mmpt+1]` statement goyacc puts at the head of every action
+// that uses `$i`: (production, K).  The slice is in range iff K entries lie above the bottom, i.e.
+// K = mmR2[n] (the Lean side checks that) together with the no-underflow theorem.
+func lrDollarLens(repo string) ([][2]int, error) {
+	_, f, err := parseFile(repo, lrGrammarFile)
+	if err != nil {
+		return nil, err
+	}
+	fd := findMethod(f, "mmParserImpl", "Parse")
+	if fd == nil || fd.Body == nil {
+		return nil, fmt.Errorf("method (*mmParserImpl).Parse not found")
+	}
+	var sw *ast.SwitchStmt
+	ast.Inspect(fd.Body, func(n ast.Node) bool {
+		if s, ok := n.(*ast.SwitchStmt); ok {
+			if id, ok := s.Tag.(*ast.Ident); ok && id.Name == "mmnt" {
+				sw = s
+				return false
+			}
+		}
+		return true
+	})
+	if sw == nil {
+		return nil, fmt.Errorf("`switch mmnt` not found")
+	}
+	var res [][2]int
+	for _, st := range sw.Body.List {
+		cc, ok := st.(*ast.CaseClause)
+		if !ok || cc.List == nil {
+			continue
+		}
+		n, err := lrIntExpr(cc.List[0])
+		if err != nil {
+			return nil, err
+		}
+		for _, b := range cc.Body {
+			as, ok := b.(*ast.AssignStmt)
+			if !ok || len(as.Lhs) != 1 || len(as.Rhs) != 1 {
+				continue
+			}
+			if id, ok := as.Lhs[0].(*ast.Ident); !ok || id.Name != "mmDollar" {
+				continue
+			}
+			// mmS[mmpt-K : mmpt+1]
+			sl, ok := as.Rhs[0].(*ast.SliceExpr)
+			if !ok || sl.Low == nil || sl.High == nil || sl.Max != nil {
+				return nil, fmt.Errorf("production %d: unexpected form of the mmDollar assignment", n)
+			}
+			lo, ok1 := sl.Low.(*ast.BinaryExpr)
+			hi, ok2 := sl.High.(*ast.BinaryExpr)
+			if !ok1 || !ok2 || lo.Op.String() != "-" || hi.Op.String() != "+" {
+				return nil, fmt.Errorf("production %d: unexpected bounds of the mmDollar slice", n)
+			}
+			if x, ok := lo.X.(*ast.Ident); !ok || x.Name != "mmpt" {
+				return nil, fmt.Errorf("production %d: mmDollar slice does not start at mmpt-K", n)
+			}
+			if x, ok := hi.X.(*ast.Ident); !ok || x.Name != "mmpt" {
+				return nil, fmt.Errorf("production %d: mmDollar slice does not end at mmpt+1", n)
+			}
+			k, err := lrIntExpr(lo.Y)
+			if err != nil {
+				return nil, err
+			}
+			one, err := lrIntExpr(hi.Y)
+			if err != nil || one != 1 {
+				return nil, fmt.Errorf("production %d: mmDollar slice does not end at mmpt+1", n)
+			}
+			res = append(res, [2]int{n, k})
+		}
+	}
+	if len(res) == 0 {
+		return nil, fmt.Errorf("no mmDollar assignment found")
+	}
+	return res, nil
+}
+
 func init() {
+	addFact(fact{
+		name:   "mmDollarLen",
+		leanTy: "List (Nat × Nat)",
+		deflt:  "[]",
+		extract: func(repo string) (string, interface{}, error) {
+			ps, err := lrDollarLens(repo)
+			if err != nil {
+				return "", nil, err
+			}
+			o := make([]string, len(ps))
+			for i, p := range ps {
+				o[i] = fmt.Sprintf("(%d, %d)", p[0], p[1])
+			}
+			return "[" + strings.Join(o, ", ") + "]", ps, nil
+		},
+	})
 	addFact(fact{
 		name:   "mmProdRhs",
 		leanTy: "List (String × List String)",
